@@ -129,7 +129,7 @@ def st_fitted(draw):
         arb = 10 ** draw(st.floats(-3.0, 12.0))
     return {"state": "fitted", "src": src, "fit": fit, "mod": mod, "req": draw(st_request()),
             "scale": {"pow2": draw(st.integers(-40, 60)), "arb": arb},
-            "retract": {"mode": draw(st.sampled_from(["values", "spikes", "nan", "const"])),
+            "retract": {"mode": draw(st.sampled_from(["values", "spikes", "drop", "nan", "const"])),
                         "seed": draw(st.integers(0, 2 ** 20))}}
 
 
@@ -294,7 +294,27 @@ def scaled_copy(idnt, s):
     return i2
 
 
+def approach_only_copy(idnt):
+    """the same fitted curve without its retract samples (a record that ends at the turning point)"""
+    from nanite.indent import Indentation
+    app = idnt["segment"] == 0
+    raw = ("force", "height (measured)", "height (piezo)", "segment", "time", "tip position")
+    data = {col: np.array(idnt[col], copy=True)[app] for col in idnt.columns if col in raw}
+    md = dict(idnt.metadata)
+    md["point count"] = int(app.sum())
+    i3 = Indentation(data=data, metadata=md)
+    for col in idnt.columns:
+        if col not in raw:
+            i3[col] = np.array(idnt[col], copy=True)[app]
+    i3.preprocessing = copy.deepcopy(idnt.preprocessing)
+    i3.preprocessing_options = copy.deepcopy(idnt.preprocessing_options)
+    i3.fit_properties.restore(copy.deepcopy(dict(idnt.fit_properties)))
+    return i3
+
+
 def retract_copy(idnt, spec):
+    if spec["mode"] == "drop":
+        return approach_only_copy(idnt), int((idnt["segment"] == 1).sum())
     i3 = copy.deepcopy(idnt)
     ret = idnt["segment"] == 1
     n = int(ret.sum())
